@@ -19,11 +19,12 @@ THEOREMS = [
     dict(name="Snow.C18.group_exact", clause="a group request records exactly getVialGroup of the first group word found", strength="full"),
     dict(name="Snow.C18.uniform_request", clause="a 'uniform n' request records every ceil(len/n)-th vial of the group (what the interpretation computes)", strength="full"),
     dict(name="Snow.C18.random_request", clause="a 'random n' request records the supplied choice, or is rejected (ValueError) when n exceeds the group", strength="full"),
+    dict(name="Snow.C18.default_count_requests", clause="requests without a number use defaultCount N = int(ceil(0.1*N)) and then behave like the explicit-count request (uniform: at most that many, inside the group; random: rejected iff larger than the group); the numeric value of the IEEE expression is compared with the code for every N in a range on each run, not proved", strength="full"),
     dict(name="Snow.C18.uniform_le", clause="'uniform n': at most n vials, all from the group, at least one", strength="full"),
-    dict(name="Snow.C18.random_exact", clause="'random n': for any choice without repetition from the group, exactly n vials, all from the group; n > |group| is rejected", strength="full"),
-    dict(name="Snow.C18.strings_union", clause="a list of requests records the union of the single requests", strength="full"),
+    dict(name="Snow.C18.random_exact", clause="'random n': for a choice without repetition of n candidates, exactly n vials, all from the group — the hypotheses restate numpy's Generator.choice(replace=False) contract — true by construction of the model; the fact about the CODE rests on the correspondence check (the contract is re-checked on every recorded call)", strength="by-construction"),
+    dict(name="Snow.C18.strings_union", clause="a list of requests: unfolded recursion (element-wise OR of the single masks); content: all masks have one entry per vial, so the OR never truncates and vial i is recorded iff a single request records it", strength="full"),
     dict(name="Snow.C18.rows_order", clause="a stored column is the temperatures of the recorded vials in index order followed by their ice fractions in the same order", strength="full"),
-    dict(name="Snow.C18.subset_eq_full", clause="the rows stored for a subset are the corresponding rows of the full recording (the model's dynamics do not take the mask)", strength="full"),
+    dict(name="Snow.C18.subset_eq_full", clause="the rows stored for a subset are the corresponding rows of the full recording: in the model the states of a step are the same lists for every mask (mask-independence of the dynamics is ASSUMED in the model) — true by construction of the model; the fact about the CODE rests on the correspondence check (subset run vs full run, bit for bit)", strength="by-construction"),
     dict(name="Snow.C18.reject_meaningless", clause="every malformed request (explicit category table on the request type) is rejected at construction with the class of its category: ValueError (intended) or UnboundLocalError / ZeroDivisionError / IndexError (accidental)", strength="full"),
     dict(name="Snow.C18.accept_well_formed", clause="every other request is accepted: acceptance / rejection at construction is a total decision", strength="full"),
     dict(name="Snow.C18.nonvacuous", clause="hypotheses are satisfiable (concrete requests on a 3x3 shelf)", strength="nonvacuity"),
@@ -47,7 +48,9 @@ RULE = ("random shapes (n_x, n_y <= 5, n_z <= 3, both arrangements) x requests f
         "scalars, floats and names, every group name in several spellings, random/uniform with and without count, "
         "counts 0 and larger than the group, ambiguous strings, lists of requests, malformed requests); every case "
         "constructs the real object, runs a short real simulation with the request and with 'all' (same seeds) and "
-        "compares every stored value bit for bit; a case is non-trivial when the request is accepted, at least one "
+        "compares every stored value bit for bit; plus the default-count stream: storeStates='random' on N x 1 x 1 for "
+        "every N <= 260 (quick) / 2500 (thorough) and some larger N, constructed only, count compared with the model's "
+        "defaultCount; a case is non-trivial when the request is accepted, at least one "
         "vial is recorded and at least one vial nucleates in the run; distinct by JSON form")
 EXPLANATION = ("Lean theorems about the storeStates interpretation and the masked write + differential check of masks, "
                "row order and stored values against real runs")
@@ -141,7 +144,24 @@ def _mk(case, store):
                      configPath=config_for(case["arr"]))
 
 
+def _run_count(case):
+    """default-count stream: storeStates='random' on a single row of N vials, constructed only;
+    the number of recorded vials is int(np.ceil(0.1 * N))"""
+    log = []
+    try:
+        with _recording(log):
+            S = _mk(case, "random")
+    except Exception as e:
+        return {"raise": core.exc_class(e), "stage": "init", "choices": log, "groups": {}}
+    mask = [int(i) for i in np.where(S._storageMask)[0]]
+    N = int(len(S._storageMask))
+    return {"raise": None, "choices": log, "mask": mask, "n": N, "emptyStore": bool(S._emptyStore),
+            "count": len(mask), "countonly": True, "groups": {g: list(range(N)) for g in NAMES}}
+
+
 def run_impl(case):
+    if case.get("kind") == "count":
+        return _run_count(case)
     log = []
     obs = {"raise": None}
     try:
@@ -203,6 +223,11 @@ def run_model(drv, case, impl):
     if "raise" in r:
         return {"raise": r["raise"]}
     out = {"raise": None, "mask": r["mask"], "n": r["n"], "emptyStore": r["emptyStore"], "cols": []}
+    if case.get("kind") == "count":
+        rc = drv.call({"op": "defaultCount", "N": [r["n"]]})
+        if "error" in rc:
+            raise RuntimeError(rc["error"])
+        out["count"] = rc["count"][0]
     for c in impl.get("cols", []):
         rr = drv.call({"op": "record", "n": r["n"], "mask": r["mask"], "T": c["T"], "sigma": c["sigma"]})
         if "error" in rr:
@@ -226,6 +251,10 @@ def compare(case, impl, model):
         dis.append(f"storage mask: impl {impl['mask']} vs model {model['mask']}")
     if impl["emptyStore"] != model["emptyStore"]:
         dis.append(f"emptyStore: impl {impl['emptyStore']} vs model {model['emptyStore']}")
+    if impl.get("countonly"):
+        if impl["count"] != model.get("count"):
+            dis.append(f"default count for N={impl['n']}: impl records {impl['count']} vials, model defaultCount = {model.get('count')}")
+        return dis
     if impl["xshape"][0] != 2 * len(model["mask"]):
         dis.append(f"rows of X: impl {impl['xshape'][0]} vs model {2 * len(model['mask'])}")
     if impl["subset_equal"]:
@@ -375,7 +404,13 @@ def predicates(case, impl):
     if must_raise is False and raised:
         out.append(Failure(clause="accept_valid", key=f"accept_valid|{site}|{sc}|{raised}",
                            detail=f"{where}: rejected with {raised}"))
-    if raised:
+    if raised or impl.get("countonly"):
+        if impl.get("countonly") and not raised:
+            c = impl["count"]
+            lo = -(-N // 10)
+            if not (lo <= c <= lo + 1) or len(set(impl["mask"])) != c:
+                out.append(Failure(clause="default_count", key=f"default_count|{site}|random",
+                                   detail=f"{where}: records {c} vials; 10 % of {N} is {N / 10}"))
         return out
     if not impl["split_ok"] or not impl["init_ok"]:
         out.append(Failure(clause="rows_order", key=f"rows_order|Snowflake.run|{sc}",
@@ -391,6 +426,9 @@ def predicates(case, impl):
 
 
 def classify(case, impl):
+    if case.get("kind") == "count":
+        c, N = impl.get("count"), case["nx"]
+        return ["spec=default-count", "count=ceil(N/10)" if c == -(-N // 10) else "count=ceil(N/10)+1 (IEEE product above the integer)"]
     tags = [f"spec={spec_class(case)}", f"arr={case['arr']}", "flat" if case["nz"] == 1 else "pallet"]
     if impl.get("raise"):
         tags.append(f"raise={impl['raise']}")
@@ -401,6 +439,8 @@ def classify(case, impl):
 
 
 def nontrivial(case, impl):
+    if case.get("kind") == "count":
+        return not impl.get("raise") and impl.get("count", 0) > 0
     return not impl.get("raise") and bool(impl.get("mask")) and impl.get("nuc", 0) > 0
 
 
@@ -524,6 +564,10 @@ def cases(rng, tier):
                        spec={"kind": "seq", "items": items, "tuple": tup})
     for _ in range(n):
         yield _case(rng)
+    # default count int(ceil(0.1*N)) for every N of a range (and some large N)
+    top = 260 if tier == "quick" else 2500
+    for N in list(range(1, top + 1)) + [3000, 4090, 5000, 7770, 10000]:
+        yield dict(kind="count", arr="square", nx=N, ny=1, nz=1, seed=1, spec={"kind": "str", "str": "random"})
 
 
 def widen(rng, tier):
